@@ -92,7 +92,49 @@ def main_size(spec):
     return 2 * spec["N"] if spec["main_kind"] == "kd_dist2" else spec["N"]
 
 
-def make_config_sampler(c, ds):
+class FormSampler(PermSampler):
+    """the same fixed order, handed out the way other legal samplers do: numpy integers, or 0-d tensors that are *views* into a tensor
+    the sampler keeps (what `yield from tensor` / torch's SubsetRandomSampler over a tensor of indices produce)"""
+
+    def __init__(self, dataset, key, take, form):
+        super().__init__(dataset, key, take)
+        self.form = form
+        self.store = torch.tensor(self.order, dtype=torch.long) if form == "tensor" else np.array(self.order, dtype=np.int64)
+
+    def __iter__(self):
+        return iter(self.store)  # elements are views (tensor) / numpy scalars
+
+
+class GrowingSampler:
+    """a sampler whose length differs from pass to pass (progressive subsets): pass p serves the first 1 + (base + p) % n entries of a
+    fixed order; len() always describes the pass that was started last (the first one before any iteration)"""
+
+    def __init__(self, dataset, key, base):
+        self.dataset = dataset
+        n = len(dataset)
+        self.order = [int(i) for i in (np.random.default_rng([key, 7]).permutation(n) if key is not None else np.arange(n))]
+        self.base, self.passes = base, 0
+        self.cur = self._size(0)
+
+    def _size(self, p):
+        n = len(self.order)
+        return 0 if n == 0 else 1 + (self.base + p) % n
+
+    def __len__(self):
+        return self.cur
+
+    def __iter__(self):
+        self.cur = self._size(self.passes)
+        self.passes += 1
+        return iter(self.order[:self.cur])
+
+
+def make_config_sampler(c, ds, model=False):
+    form = c.get("form") or "int"
+    if form == "growing":
+        return GrowingSampler(ds, c.get("key"), c.get("take") or 0)
+    if form in ("numpy", "tensor") and not model:
+        return FormSampler(ds, c.get("key"), c.get("take"), form)
     return PermSampler(ds, c.get("key"), c.get("take"))
 
 
@@ -104,16 +146,28 @@ def build_impl(spec, start=None):
     configs = []
     for k, c in enumerate(spec["configs"]):
         ds = TagDataset(c["size"], k + 1)
-        configs.append(InterleavedSamplerConfig(
-            sampler=make_config_sampler(c, ds),
-            every_n_epochs=c.get("n_e"), every_n_updates=c.get("n_u"), every_n_samples=c.get("n_s"),
-            batch_size=c.get("batch_size"), collator=c.get("_collator"),
-        ))
+        if spec.get("call") == "positional":
+            # the documented field order of the config dataclass: sampler, every_n_epochs, every_n_updates, every_n_samples, collator,
+            # batch_size
+            configs.append(InterleavedSamplerConfig(make_config_sampler(c, ds), c.get("n_e"), c.get("n_u"), c.get("n_s"),
+                                                    c.get("_collator"), c.get("batch_size")))
+        else:
+            configs.append(InterleavedSamplerConfig(
+                sampler=make_config_sampler(c, ds),
+                every_n_epochs=c.get("n_e"), every_n_updates=c.get("n_u"), every_n_samples=c.get("n_s"),
+                batch_size=c.get("batch_size"), collator=c.get("_collator"),
+            ))
     kw = {spec["budget_kind"]: spec["budget"]}
     if start:
         kw.update(start)
-    s = InterleavedSampler(main_sampler=main, batch_size=spec["B"], configs=configs, drop_last=spec["drop_last"],
-                           drop_last_batch_size=spec.get("dlbs"), main_collator=spec.get("_main_collator"), **kw)
+    if spec.get("call") == "positional":
+        # documented order: main_sampler, batch_size, configs, drop_last, main_collator, epochs, updates, samples, start_epoch,
+        # start_update, start_sample, drop_last_batch_size
+        s = InterleavedSampler(main, spec["B"], configs, spec["drop_last"], spec.get("_main_collator"), kw.get("epochs"), kw.get("updates"),
+                               kw.get("samples"), kw.get("start_epoch"), kw.get("start_update"), kw.get("start_sample"), spec.get("dlbs"))
+    else:
+        s = InterleavedSampler(main_sampler=main, batch_size=spec["B"], configs=configs, drop_last=spec["drop_last"],
+                               drop_last_batch_size=spec.get("dlbs"), main_collator=spec.get("_main_collator"), **kw)
     return s, main
 
 
@@ -125,7 +179,7 @@ def reference_run(spec, max_epochs=10000):
     N, B = spec["N"], spec["B"]
     main = make_main_sampler(spec, TagDataset(main_size(spec), 0))
     cfgs = spec["configs"]
-    csamplers = [make_config_sampler(c, TagDataset(c["size"], k + 1)) for k, c in enumerate(cfgs)]
+    csamplers = [make_config_sampler(c, TagDataset(c["size"], k + 1), model=True) for k, c in enumerate(cfgs)]
     kind, budget = spec["budget_kind"], spec["budget"]
     stream, set_epochs, epoch_ends, passes = [], [], [], []
 
@@ -231,6 +285,10 @@ def config(draw, N, single_kind_only=False):
     c["key"] = draw(st.one_of(st.none(), st.integers(0, 999)))
     if c["size"] > 1 and draw(st.integers(0, 4)) == 0:
         c["take"] = draw(st.integers(1, c["size"]))
+    # how the side sampler hands out its indices / whether its length changes between passes
+    form = draw(st.sampled_from(["int", "int", "int", "numpy", "tensor", "growing"]))
+    if form != "int":
+        c["form"] = form
     return c
 
 
@@ -241,4 +299,6 @@ def full_spec(draw, max_configs=4, small=False, allow_zero_budget=True, single_k
     g["configs"] = [draw(config(g["N"], single_kind_only=single_kind_only)) for _ in range(n_cfg)]
     if allow_zero_budget and n_cfg > 0 and draw(st.integers(0, 14)) == 0:
         g["budget"] = 0
+    if draw(st.integers(0, 3)) == 0:
+        g["call"] = "positional"
     return g
